@@ -36,6 +36,15 @@ def main(argv):
         if prop in ("C05", "C12", "C14"):
             from . import checks_serial
             return checks_serial.run(prop, tier)
+        if prop == "C11":
+            from . import checks_diff
+            return checks_diff.run(prop, tier)
+        if prop == "C19":
+            from . import checks_fs
+            return checks_fs.run(prop, tier)
+        if prop == "C20":
+            from . import checks_gen
+            return checks_gen.run(prop, tier)
         if prop == "C18":
             from . import checks_lock
             return checks_lock.run(prop, tier)
